@@ -158,9 +158,22 @@ func RootNode(n Node) *Module {
 func module(n Node) *Module {
 	m := RootNode(n)
 	if m.Kind() == "submodule" {
+		if m.Modules == nil || m.BelongsTo == nil {
+			return nil
+		}
 		m = m.Modules.Modules[m.BelongsTo.Name]
 	}
 	return m
+}
+
+// moduleName returns the name of the Module to which n belongs, also when n
+// resides in a submodule whose module is not loaded.
+func moduleName(n Node) string {
+	m := RootNode(n)
+	if m.Kind() == "submodule" && m.BelongsTo != nil {
+		return m.BelongsTo.Name
+	}
+	return m.Name
 }
 
 // NodePath returns the full path of the node from the module name.
